@@ -174,7 +174,7 @@ Proof.
   destruct (qp_header_spec m helo ext8 b len Hw ltac:(lia) Hhelo D0 (f8 rf || fline rf) st Hg) as (rh & Erh & Hd). rewrite Erh.
   destruct rh as [[h mp] st1|why st1]; cbn [bindR].
   2: { eexists. split; [reflexivity|]. cbn [hdr_done] in Hd. subst st1. exists []. apply good_good0. exact Hg. }
-  destruct Hd as (Hh & (ls & ll & Emp) & Hbnd & H8 & Hlr & t & Gt & Ht & _). fold W in Hlr, Ht.
+  destruct Hd as (Hh & (ls & ll & Emp) & Hbnd & _ & H8 & Hlr & t & Gt & Ht & _). fold W in Hlr, Ht.
   destruct (Nat.ltb_spec len h) as [|_]; [lia|].
   assert (Hbody : exists r, (if f8 rf || fline rf then liftS (recode_qp m (b + h) (len - h) st1)
                              else liftS (send_plain m (b + h) (len - h) st1)) = Ok r /\ ent_ok W r).
